@@ -85,6 +85,11 @@ fn ts_strategy() -> impl Strategy<Value = i64> {
         1 => (1i64..2000).prop_map(|d| i64::MIN + d),
         1 => (any::<i32>(), 0usize..4).prop_map(|(k, u)| (k as i64).wrapping_mul(NS_PER[u])),
         1 => Just(NAT),
+        // the last values whose conversion to a finer unit still fits: +-(i64::MAX / ratio) and neighbours
+        1 => (0usize..3, -3i64..=3, any::<bool>()).prop_map(|(r, d, neg)| {
+            let v = i64::MAX / [1_000i64, 1_000_000, 1_000_000_000][r] + d;
+            if neg { -v } else { v }
+        }),
     ]
 }
 
